@@ -701,6 +701,122 @@ theorem settled_run (s : SfSt) (tr : List Act) (c : Nat) (e : Option Nat) (st : 
   | nil => exact hc
   | cons a tr ih => exact ih (step s a) (settled_step s a c e st hc hst)
 
+/-! ### who can become attached to an execution -/
+
+/-- a call by one caller leaves every other caller's entry alone -/
+theorem call_other_caller (s : SfSt) (c c' key n : Nat) (o : Outcome) (h : c' ≠ c) :
+    (step s (.call c key n o)).callers c' = s.callers c' := by
+  show (stepCall s c key n o).callers c' = _
+  unfold stepCall
+  split
+  · rfl
+  · split <;> simp [upd_apply, h]
+
+/-- One step attaches a caller to execution `e` only if `e` is unfinished after the step (it joined through the
+table, or created it); otherwise the caller was attached to `e` before. -/
+theorem attach_step (s : SfSt) (h : Inv s) (a : Act) (c e : Nat) (st : CSt)
+    (hc : (step s a).callers c = some ⟨some e, st⟩) :
+    (∃ st', s.callers c = some ⟨some e, st'⟩) ∨ (∃ x, (step s a).execs e = some x ∧ x.finished = false) := by
+  cases a with
+  | call c' key n o =>
+    by_cases hcc : c = c'
+    · subst hcc
+      have hc0 : (stepCall s c key n o).callers c = some ⟨some e, st⟩ := hc
+      show _ ∨ (∃ x, (stepCall s c key n o).execs e = some x ∧ _)
+      unfold stepCall at hc0 ⊢
+      cases hcur : s.callers c with
+      | some cl =>
+        rw [hcur] at hc0
+        simp only at hc0
+        rw [hcur] at hc0
+        left
+        exact ⟨st, by rw [← hc0]⟩
+      | none =>
+        rw [hcur] at hc0
+        simp only at hc0 ⊢
+        cases ht : s.table key with
+        | some e' =>
+          rw [ht] at hc0
+          simp only [upd_same, Option.some.injEq, Caller.mk.injEq] at hc0
+          obtain ⟨x, hx, _, hf⟩ := h.tab key e' ht
+          right
+          obtain ⟨h1, _⟩ := hc0
+          subst h1
+          exact ⟨x, hx, hf⟩
+        | none =>
+          rw [ht] at hc0
+          simp only [upd_same, Option.some.injEq, Caller.mk.injEq] at hc0
+          obtain ⟨h1, _⟩ := hc0
+          subst h1
+          right
+          refine ⟨newExec s key n o, by simp, ?_⟩
+          unfold newExec; split <;> rfl
+    · left
+      rw [call_other_caller s c' c key n o hcc] at hc
+      exact ⟨st, hc⟩
+  | bodyStep e' =>
+    left
+    have : (stepBody s e').callers = s.callers := by
+      unfold stepBody
+      split
+      · rfl
+      · split <;> rfl
+    have hc0 : (stepBody s e').callers c = some ⟨some e, st⟩ := hc
+    rw [this] at hc0
+    exact ⟨st, hc0⟩
+  | finish e' =>
+    left
+    have hc0 : (stepFinish s e').callers c = some ⟨some e, st⟩ := hc
+    unfold stepFinish at hc0
+    split at hc0
+    · exact ⟨st, hc0⟩
+    · rename_i x hx
+      split at hc0
+      · exact ⟨st, hc0⟩
+      · dsimp only at hc0
+        rcases deliver_cases s.callers e' x.outcome c with ⟨h1, h2⟩ | ⟨_, h2⟩
+        · rw [h2] at hc0
+          simp only [Option.some.injEq, Caller.mk.injEq] at hc0
+          obtain ⟨h3, _⟩ := hc0
+          have : e' = e := by simpa using h3
+          subst this
+          exact ⟨.waiting, h1⟩
+        · rw [h2] at hc0
+          exact ⟨st, hc0⟩
+  | cancel c' =>
+    left
+    have hc0 : (stepCancel s c').callers c = some ⟨some e, st⟩ := hc
+    by_cases hcc : c = c'
+    · subst hcc
+      unfold stepCancel at hc0
+      split at hc0
+      · simp at hc0
+      · rename_i e0 hcur
+        simp only [upd_same, Option.some.injEq, Caller.mk.injEq] at hc0
+        obtain ⟨h1, _⟩ := hc0
+        subst h1
+        exact ⟨.waiting, hcur⟩
+      · exact ⟨st, hc0⟩
+    · rw [(stepCancel_frame s c').2.2.2.2.2.1 c hcc] at hc0
+      exact ⟨st, hc0⟩
+
+/-- after an execution has finished nobody new is ever attached to it -/
+theorem finished_no_new_waiters (s : SfSt) (h : Inv s) (tr : List Act) (e : Nat) (x : Exec)
+    (hx : s.execs e = some x) (hf : x.finished = true) (c : Nat) (st : CSt)
+    (hc : (run s tr).callers c = some ⟨some e, st⟩) : ∃ st', s.callers c = some ⟨some e, st'⟩ := by
+  induction tr generalizing s x st with
+  | nil => exact ⟨st, hc⟩
+  | cons a tr ih =>
+    obtain ⟨y, hy, hl⟩ := exec_step s h a e x hx
+    obtain ⟨st', hst'⟩ := ih (step s a) (inv_step s h a) y hy (hl.2.2.2.1 hf) st hc
+    rcases attach_step s h a c e st' hst' with hh | ⟨z, hz, hzf⟩
+    · exact hh
+    · rw [hy] at hz
+      simp only [Option.some.injEq] at hz
+      subst hz
+      rw [hl.2.2.2.1 hf] at hzf
+      simp at hzf
+
 /-! ### bursts are traces -/
 
 theorem macro_run (s : SfSt) (bursts : List (List Act)) : ∃ tr, bursts.foldl macroStep s = run s tr := by
